@@ -164,7 +164,7 @@ PROPS = {
                  "referrers, redirects, per-module dependencies with code/type targets, attributes, dynamic flags, "
                  "external/asset flags, configured imports, has_node, multiset of loader calls) must equal the "
                  "extracted model's. 20% of the worlds answer 1-2 modules under another final specifier (an existing "
-                 "one or a fresh one that serves the same module). non-trivial = >= 3 entries and (an error, a redirect or a dynamic dependency)." + REG_TEXT +
+                 "one or a fresh one that serves the same module). Extras drawn after the base world: 14% have valid npm: / passed-through jsr: specifiers (half of them built with an npm resolver that rejects some requirements and fails some dependency graphs), 10% a WebAssembly module (valid binary whose imports name modules of the world, or rejected bytes), 12% a Resolver used in parse and build (import-map style mapping of bare specifiers to modules, to unserved URLs, refusals; resolve_types for untyped modules; a default JSX import source). non-trivial = >= 3 entries and (an error, a redirect or a dynamic dependency)." + REG_TEXT +
                  " DECLARATION LAYER (Model/Decl.v): the last 4000 (quick) / 80000 (thorough) cases hand random lists of 1-7 dependency "
                  "descriptors (static import/export/import-type/export-type/import-equals/export-equals/defer/source/module-augmentation and "
                  "dynamic import/defer/source/require with string arguments; 1-3 specifier texts so that repeats in every order are frequent; "
